@@ -20,7 +20,7 @@ func c05(c *core.Check) {
 		"(2) In ResolveAST (go/cfg): includes are resolved first, RegisterNames precedes every Resolve* call (order independence), ResolveTypedefs lies on every nil-error path, and each closure passed to the ForEach* helpers routes the resolver's error through guard. " +
 		"(3) Reference => Used pairing: every composite literal of parser.Reference / parser.ConstValueExtra whose Index comes from the key of a `range …Includes` loop has, in the same block, `…Includes[idx].Used = &yes`; there is no other writer of Include.Used in the package. " +
 		"(4) IsTypedef is set exactly in the branches guarded by `c == Category_Typedef` (local and include-qualified: two sibling sites). " +
-		"NOT decided: that the right include is chosen when base names clash, ambiguity rules of SplitValue, Deref."
+		"(+) on go/ssa, the typedef whose category resolves a reference is looked up in the reference's own AST under its own name on every path. NOT decided: that the right include is chosen when base names clash, ambiguity rules of SplitValue, Deref."
 	c.RuleText = "one obligation per AST edge / path rule / literal site; non-trivial = call-argument flow, dominance, or same-block pairing"
 	c.Assume = []string{"VTA call graph over-approximates calls", "ForEach* helpers invoke their callback for every element (checked for shape only)"}
 	prog := c.Prog
@@ -442,6 +442,7 @@ func c05searchLoops(c *core.Check) {
 	}
 	_ = info
 	c.Min("include-search-complete", 2)
+	c05typedefSource(c)
 }
 
 // enclosingBlock returns the statement list of the innermost block that directly contains target.
